@@ -46,7 +46,7 @@ pub fn run(ctx: &Ctx) -> Outcome {
                         Got::Val(g) if g == want => acc.count("split-compared-with-reference-matches"),
                         Got::Val(g) if g.iter().any(|x| x.is_err()) => {}
                         Got::Val(g) => {
-                            if h.aux_mismatch > 0 && fj_listed {
+                            if h.aux_mismatch > 0 && fj_listed && c.node.has_cond() {
                                 acc.count("reference-partition:attributed-to-FJ");
                             } else {
                                 acc.violate(Violation::new("C10", "reference-partition", c.pattern, t, 0, "split", format!("{:?} (gaps between the matches of the reference iteration)", want), format!("{:?}", g)));
